@@ -52,14 +52,21 @@ func refSplit(req *gnmi.SubscribeRequest) (map[string]*gnmi.SubscribeRequest, bo
 func c19Run(c *fw.Case, n int) {
 	targets := []string{"t1", "t2", "t3", "t4"}
 	r := c.Rng.Fork("c19")
+	// one world per case (a world keeps memory alive after Close); the recording clients are wiped per stream
+	w, err := world.New(world.Options{Targets: targets, NoControllers: true})
+	if err != nil {
+		c.Inconclusive("world: " + err.Error())
+		return
+	}
+	defer w.Close()
+	for _, t := range targets {
+		w.Connect(t)
+	}
 	for i := 0; i < n; i++ {
-		w, err := world.New(world.Options{Targets: targets, NoControllers: true})
-		if err != nil {
-			c.Inconclusive("world: " + err.Error())
-			return
-		}
 		for _, t := range targets {
-			w.Connect(t)
+			if conn := c19Conn(w, t); conn != nil {
+				conn.Subs, conn.Handlers, conn.Polls = nil, nil, 0
+			}
 		}
 		// the subscription
 		sl := &gnmi.SubscriptionList{Mode: gnmi.SubscriptionList_Mode(r.Intn(3)), Encoding: gnmi.Encoding(r.Intn(5)), UpdatesOnly: r.Chance(1, 2), AllowAggregation: r.Chance(1, 3)}
@@ -128,7 +135,6 @@ func c19Run(c *fw.Case, n int) {
 		var serr error
 		guarded(c, "Subscribe", nil, func() { serr = w.Cur().Server.Subscribe(subStream{st}) })
 		if c.Violated() {
-			w.Close()
 			return
 		}
 		c.Count("streams", 1)
@@ -144,12 +150,10 @@ func c19Run(c *fw.Case, n int) {
 			c.Count("streams_that_must_be_refused", 1)
 			if serr == nil || serr == io.EOF {
 				fail("subscribe/not-refused", "a stream with a poll before subscribing, a second subscription or no target at all ended with %v", serr)
-				w.Close()
 				return
 			}
 		} else if serr != io.EOF {
 			fail("subscribe/valid-stream-refused", "a valid stream ended with %v", serr)
-			w.Close()
 			return
 		}
 		if seqKind == 3 || !ok {
@@ -164,7 +168,6 @@ func c19Run(c *fw.Case, n int) {
 			if exp == nil {
 				if len(conn.Subs) != 0 || conn.Polls != 0 {
 					fail("subscribe/forwarded-to-unnamed-target", "target %s was not named but received %d subscriptions / %d polls", t, len(conn.Subs), conn.Polls)
-					w.Close()
 					return
 				}
 				continue
@@ -173,17 +176,14 @@ func c19Run(c *fw.Case, n int) {
 			c.Count("target_requests_compared", 1)
 			if len(conn.Subs) != 1 {
 				fail("subscribe/missing-or-duplicate", "target %s received %d subscription requests, expected 1", t, len(conn.Subs))
-				w.Close()
 				return
 			}
 			if !proto.Equal(conn.Subs[0], exp) {
 				fail("subscribe/entries-or-options-differ", "target %s received\n  %v\nthe reference split gives\n  %v", t, conn.Subs[0], exp)
-				w.Close()
 				return
 			}
 			if conn.Polls != polls {
 				fail("subscribe/poll-fanout", "target %s received %d polls, expected %d", t, conn.Polls, polls)
-				w.Close()
 				return
 			}
 		}
@@ -196,17 +196,14 @@ func c19Run(c *fw.Case, n int) {
 			before := len(st.sent)
 			if err := conn.Handlers[0](resp); err != nil {
 				fail("subscribe/relay-error", "relaying a response from %s failed: %v", t, err)
-				w.Close()
 				return
 			}
 			c.Count("responses_relayed", 1)
 			if len(st.sent) != before+1 || !proto.Equal(st.sent[before].(*gnmi.SubscribeResponse), resp) {
 				fail("subscribe/relay-not-verbatim", "the response from %s was not relayed verbatim (sent %d messages)", t, len(st.sent)-before)
-				w.Close()
 				return
 			}
 		}
-		w.Close()
 	}
 	c.Class("streams")
 }
